@@ -345,7 +345,7 @@ func (b *backend) handle(raw net.Conn) {
 		return
 	}
 	b.px.deliveredAtBackend(n)
-	if pl.px != b.px {
+	if pl.px != b.px && pl.altPx != b.px {
 		cs.fail(pl, "cross-wired", "connection made to proxy %s (backend %s) was bridged to backend %s of proxy %s", pl.px.name, pl.px.be.id, b.id, b.px.name)
 		return
 	}
